@@ -235,6 +235,76 @@ LOOP_TABLE = {
 PROGRESS_CALL = re.compile(r"::(next|next_back|pop|pop_front|pop_back|recv|recv_timeout|try_recv|remove|swap_remove|shift_remove|drain|truncate|read_line|read|nth|advance_by)$")
 
 
+_LOCAL = re.compile(r"_(\d+)\b")
+
+
+def _tested_state_changes(blocks, succ, body, m):
+    """True when some exit test of the loop `body` depends on a local that is live into the loop and written inside it (assigned, or borrowed
+    `&mut` and passed to a call), or on the result of a progress call (next / pop / recv ..) made inside it; False when no exit test does;
+    None when the loop has no exit test inside (e.g. it is left by `return` / `?` only through calls we do not follow)."""
+    defs_in, defs_out = {}, set(range(0, (m.get("arg_count") or 0) + 1))
+    for i, b in blocks.items():
+        for st in b.get("stmts", []):
+            if st.get("dst") is None:
+                continue
+            if i in body:
+                defs_in.setdefault(st["dst"], []).append(("stmt", st.get("rv", "")))
+            else:
+                defs_out.add(st["dst"])
+        t = b["term"]
+        if t.get("t") == "Call" and t.get("dst") is not None:
+            if i in body:
+                defs_in.setdefault(t["dst"], []).append(("call", t))
+            else:
+                defs_out.add(t["dst"])
+    # locals written in the loop: assigned, or `&mut` borrowed (directly or through a reborrow) and handed to a call
+    written = set(defs_in)
+    mut_of = {}
+    for i in body:
+        for st in blocks[i].get("stmts", []):
+            rv = st.get("rv", "")
+            mm = re.match(r"&mut (?:\(\*)?_(\d+)", rv)
+            if mm and st.get("dst") is not None:
+                mut_of[st["dst"]] = int(mm.group(1))
+
+    def root_of(x, seen=()):
+        while x in mut_of and x not in seen:
+            seen = seen + (x,)
+            x = mut_of[x]
+        return x
+    for i in body:
+        t = blocks[i]["term"]
+        if t.get("t") == "Call":
+            for a in t.get("args") or []:
+                if isinstance(a, dict) and a.get("local") in mut_of:
+                    written.add(root_of(a["local"]))
+    tests = [i for i in body if blocks[i]["term"].get("t") == "SwitchInt" and any(s_ not in body for s_ in succ[i]) and any(s_ in body for s_ in succ[i])]
+    if not tests:
+        return None
+    for i in tests:
+        d = blocks[i]["term"].get("discr") or {}
+        start = d.get("local")
+        if start is None:
+            return True
+        seen, todo = set(), [start]
+        while todo:
+            x = todo.pop()
+            if x in seen:
+                continue
+            seen.add(x)
+            for kind, what in defs_in.get(x, []):
+                if kind == "stmt":
+                    todo += [int(n_) for n_ in _LOCAL.findall(what)]
+                else:
+                    if PROGRESS_CALL.search(what.get("callee_res") or what.get("callee") or ""):
+                        return True
+                    todo += [a["local"] for a in what.get("args") or [] if isinstance(a, dict) and "local" in a]
+        carried = {x for x in seen if x in defs_out}
+        if carried & written:
+            return True
+    return False
+
+
 def rule_loop_progress(ctx):
     """LOOP-PROGRESS (MIR): in every loop of the crate, every cycle from the loop header back to itself executes a progress step - an
     iterator / queue advance (`next`, `pop`, `recv`, ..) or a counter update (checked add / sub).  A cycle without one re-tests the same state
@@ -317,6 +387,13 @@ def rule_loop_progress(ctx):
                             seen.add(s_)
                             todo.append(s_)
             owner = dp.split("::{closure")[0]
+            if not stuck and owner not in LOOP_TABLE:
+                # the state an exit test looks at must be changed somewhere in the loop: a search `while taken.contains(&candidate)` whose body
+                # builds the next candidate into a *new* local (a shadowing `let mut candidate`) counts and formats forever
+                verdict = _tested_state_changes(blocks, succ, body, m)
+                if verdict is False:
+                    ctx.bad("LOOP-PROGRESS", "%s:tested-state" % hq.last(owner, 2), "%s:%s" % (m["file"], blocks[h]["term"].get("line")),
+                            "no exit test of this loop reads anything the loop changes: the variables it tests are assigned (or handed out as &mut) nowhere in the loop body")
             if stuck and owner in LOOP_TABLE:
                 ctx.ok("LOOP-PROGRESS", "%s:exempt" % hq.last(owner, 2), "%s:%s" % (m["file"], blocks[h]["term"].get("line")), LOOP_TABLE[owner], nontrivial=False)
             elif stuck:
